@@ -8,6 +8,7 @@ use crate::refs::chunker::ref_chunks;
 use crate::refs::format as fmt;
 use serde::{Deserialize, Serialize};
 use std::collections::{BTreeMap, HashMap};
+use std::os::unix::fs::OpenOptionsExt;
 use std::path::Path;
 use std::sync::Arc;
 
@@ -85,7 +86,35 @@ pub fn compress_cli_over(dir: &Path, tag: &str, source: &[u8], cfg: &ArchCfg, st
     if !stdin {
         l2::write_file(&dir.join(&src_name), source);
     }
-    let mut args = l2::compress_args(cfg, if stdin { None } else { Some(&src_name) }, &arch_name, existing.is_some());
+    // a pipe can reach `bita compress` in three ways: as its stdin (no -i), as `-i /dev/stdin`, or as a named pipe given to
+    // -i. Which one is a function of the case (a replay makes the same choice); all three are the same input stream.
+    let fifo_name = format!("{}.fifo", tag);
+    let pipe_kind = if stdin && std::env::var("BVERIF_NO_VERBOSITY").is_err() { crate::engine::blake2_64(&[&crate::engine::case_salt().to_le_bytes(), b"pipe-kind", tag.as_bytes()]) % 4 } else { 2 };
+    let input_arg: Option<&str> = match (stdin, pipe_kind) {
+        (false, _) => Some(&src_name),
+        (true, 0) => Some("/dev/stdin"),
+        (true, 1) => Some(&fifo_name),
+        _ => None,
+    };
+    let mut fifo_writer = None;
+    if stdin && pipe_kind == 1 {
+        let path = dir.join(&fifo_name);
+        let _ = std::fs::remove_file(&path);
+        let cpath = std::ffi::CString::new(path.display().to_string()).unwrap();
+        if unsafe { libc::mkfifo(cpath.as_ptr(), 0o600) } != 0 {
+            return Err("harness: mkfifo failed".into());
+        }
+        // the writer's open() blocks until bita opens the pipe for reading; closing it gives bita end-of-file. (If bita never
+        // opens it, the drain below does, so the thread always ends.)
+        let data = source.to_vec();
+        fifo_writer = Some(std::thread::spawn(move || {
+            use std::io::Write;
+            if let Ok(mut f) = std::fs::OpenOptions::new().write(true).open(&path) {
+                let _ = f.write_all(&data);
+            }
+        }));
+    }
+    let mut args = l2::compress_args(cfg, input_arg, &arch_name, existing.is_some());
     // metadata options go before the positional output
     let out = args.pop().unwrap();
     for (i, m) in metadata.iter().enumerate() {
@@ -105,13 +134,30 @@ pub fn compress_cli_over(dir: &Path, tag: &str, source: &[u8], cfg: &ArchCfg, st
         }
     }
     args.push(out);
-    let mut spec = l2::RunSpec { args, stdin: if stdin { Some(source.to_vec()) } else { None }, ..Default::default() };
+    let mut spec = l2::RunSpec { args, stdin: if stdin && pipe_kind != 1 { Some(source.to_vec()) } else { None }, ..Default::default() };
     let log = dir.join(format!("{}.hooklog", tag));
     if let Some(h) = hook {
         spec.shim = true;
         spec.env = h.env(&log);
     }
     let r = l2::run_bita(dir, &spec);
+    if let Some(t) = fifo_writer {
+        // if bita never read the pipe to its end, drain it so that the writer thread finishes
+        if let Ok(mut f) = std::fs::OpenOptions::new().read(true).custom_flags(libc::O_NONBLOCK).open(dir.join(&fifo_name)) {
+            use std::io::Read;
+            let mut sink = vec![0u8; 1 << 16];
+            let t0 = std::time::Instant::now();
+            while !t.is_finished() && t0.elapsed().as_secs() < 20 {
+                if !matches!(f.read(&mut sink), Ok(n) if n > 0) {
+                    std::thread::sleep(std::time::Duration::from_millis(2));
+                }
+            }
+        }
+        if t.is_finished() {
+            let _ = t.join();
+        }
+        let _ = std::fs::remove_file(dir.join(&fifo_name));
+    }
     if r.timed_out {
         return Err(format!("[timeout] bita compress did not finish: {}", r.describe()));
     }
